@@ -52,6 +52,7 @@ class Stats:
         "samples",
         "nontrivial",
         "sched",
+        "info",
     )
 
     def __init__(self):
@@ -64,6 +65,7 @@ class Stats:
         self.samples = []
         self.nontrivial = False
         self.sched = hashlib.sha256()
+        self.info = {}
 
     # -- recording -----------------------------------------------------
     def fault(self, kind, n=1):
